@@ -630,15 +630,23 @@ def run_config_case(ctx, case, count=True):
                 return None
             return [(classify(prog, msg) or f"config:build-raises:{type(e).__name__}", f"construction under {pt1} raised {msg[:240]} (fine under the default configuration)")]
         x = env[root]
+        from harness.props_ext import c04_drift
+
+        # the value taken KEY BY KEY from __dask_graph__() under the advertised keys (always the last observation of a
+        # mode: it warms this collection's own materialization)
+        by_keys = lambda: c04_drift.keys_value(x)[0]  # noqa: E731
         if mode == "construct-only":
             check("compute-default", lambda: x.compute(scheduler="sync"), want[root])
+            check("keys-default", by_keys, want[root])
         elif mode == "compute-only":
             with dask.config.set(pt2):
                 check("compute", lambda: x.compute(scheduler="sync"), want[root])
+                check("keys", by_keys, want[root])
         elif mode == "both":
             with dask.config.set(pt1):
                 check("compute", lambda: x.compute(scheduler="sync"), want[root])
                 check("graph+compute-inner", lambda: env[sorted(env)[len(env) // 2]].compute(scheduler="sync"), want[sorted(env)[len(env) // 2]])
+                check("keys", by_keys, want[root])
         else:  # changed between construction and compute, and between two computes of the same collection
             with dask.config.set(pt2):
                 check("compute-1", lambda: x.compute(scheduler="sync"), want[root])
@@ -652,6 +660,7 @@ def run_config_case(ctx, case, count=True):
                     y = None
                 if y is not None:
                     check("rebuilt-under-pt3", lambda: y.compute(scheduler="sync"), want[root])
+                check("keys-3", by_keys, want[root])
     return fails
 
 
@@ -708,7 +717,11 @@ def run(ctx, replay=None):
         "different split_every — keyword or config — all kept alive and computed in both orders), each history started from cleared `_LOWER_CACHE` + singleton "
         "registries (epochs of several histories in the thorough tier); config crossing: points drawn from the product of "
         f"{len(CONFIG_DOMAIN)} keys x 4 timing modes (construct-only, compute-only, both, changed between construction / "
-        "first compute / second compute / rebuild); a case is distinct by (phase, action or mode, keys set, family size)"
+        "first compute / second compute / rebuild; the value is also taken key by key from __dask_graph__() under the "
+        "advertised keys); a case is distinct by (phase, action or mode, keys set, family size). Configuration-drift stream "
+        "(harness/props_ext/c04_drift.py): aligned multi-operand nodes over nested / interleaved / broadcasting operand chunkings, "
+        "chunks='auto' sources, rechunk('auto'), config-driven tree reductions, built under A, metadata read or not, then one lazily "
+        "read option (enumerated from the source) changed and optimize-graph on/off: blocks under the advertised keys and compute() vs NumPy"
     )
     ctx.assumptions = [
         "the Lean theorems are about an abstract system: per-rule soundness for every configuration value (RuleSound) and "
@@ -722,7 +735,12 @@ def run(ctx, replay=None):
     ]
     if replay is not None:
         case = replay["case"] if "case" in replay else replay
-        if case.get("kind") == "config":
+        if case.get("kind") == "drift":  # configuration-drift stream (harness/props_ext/c04_drift.py)
+            from harness.props_ext import c04_drift
+
+            for sig, detail in c04_drift.run_c09(ctx, case) or []:
+                ctx.fail(sig, case, detail)
+        elif case.get("kind") == "config":
             for sig, detail in run_config_case(ctx, case) or []:
                 ctx.fail(sig, case, detail)
         elif case.get("kind") == "history":
@@ -869,6 +887,12 @@ def run(ctx, replay=None):
             ctx.notes["config_stopped_early_at_point"] = pi
             break
     ctx.notes["config_cases"] = done
+
+    # ---------------- configuration drift: a lazily read option changes between construction / first metadata read
+    # and graph build; the value is taken KEY BY KEY from the graph under the advertised keys (and by compute())
+    from harness.props_ext import c04_drift
+
+    c04_drift.run_c09_stream(ctx)
 
     known_probe(ctx)
 
